@@ -1060,6 +1060,72 @@ def D26_inherited_patch_not_left_behind():
     return True, "no watched class owns or resolves __call__ differently after a conversion"
 
 
+def D29_static_kwarg_value_in_function_key():
+    """C07: two call sites of one @onnx_function that differ only in a static keyword argument whose value numpy cannot
+    turn into a regular array (a ragged tuple) must not share one function body"""
+    jax, jnp = _jax()
+    try:
+        from witnesses import _fnmods as F
+    except ImportError:
+        import _fnmods as F
+
+    def prog(x):
+        return F.poly_cfg(x, cfg=((1.0, 2.0), (3.0,))) * F.poly_cfg(x, cfg=((1.0, 2.0), (50.0,)))
+    return _cmp(prog, [(4,)], [np.arange(4, dtype=np.float32)])
+
+
+def _wellformed(model):
+    """(ok, why): ONNX checker with full checks, strict shape inference, ONNX Runtime load"""
+    import onnx
+    import onnxruntime as ort
+    try:
+        onnx.checker.check_model(model, full_check=True)
+    except Exception as e:
+        return False, f"onnx.checker rejects the model: {str(e)[:200]}"
+    try:
+        onnx.shape_inference.infer_shapes(model, strict_mode=True)
+    except Exception as e:
+        return False, f"strict shape inference fails: {str(e)[:200]}"
+    try:
+        so = ort.SessionOptions()
+        so.log_severity_level = 4
+        ort.InferenceSession(model.SerializeToString(), so, providers=["CPUExecutionProvider"])
+    except Exception as e:
+        return False, f"ONNX Runtime does not load the model: {str(e)[:200]}"
+    return True, "well formed"
+
+
+def D30_passthrough_function_body():
+    """C03: an @onnx_function that returns its argument unchanged must still give a loadable model"""
+    jax, jnp = _jax()
+    try:
+        from witnesses import _fnmods as F
+    except ImportError:
+        import _fnmods as F
+    try:
+        m = _export(lambda x: F.ident_fn(x) + 1.0, [(3,)])
+    except Exception as e:
+        return True, f"export raised {type(e).__name__} (loud)"
+    return _wellformed(m)
+
+
+def D31_custom_name_collides_with_loop_body_value():
+    """C03/C05: a user-supplied input name equal to the name of a value inside a Loop body must be rejected or renamed"""
+    jax, jnp = _jax()
+    from jax import lax
+    import jax2onnx
+    fn = lambda x: lax.fori_loop(0, 3, lambda i, c: c * 2.0 + 1.0, x)  # noqa: E731
+    plain = jax2onnx.to_onnx(fn, [(3,)], model_name="d31")
+    inner = [o for n in plain.graph.node if n.op_type == "Loop" for a in n.attribute if a.name == "body" for b in a.g.node for o in b.output if o]
+    if not inner:
+        return None, "no Loop body value found"
+    try:
+        m = jax2onnx.to_onnx(fn, [(3,)], model_name="d31", input_names=[inner[0]])
+    except Exception as e:
+        return True, f"export raised {type(e).__name__} (loud)"
+    return _wellformed(m)
+
+
 ALL = {
     "C18_nan_vs_finite": C18_nan_vs_finite, "C18_inf_vs_finite": C18_inf_vs_finite, "C18_shape_mismatch": C18_shape_mismatch,
     "C18_count_mismatch": C18_count_mismatch, "C18_beyond_tolerance": C18_beyond_tolerance,
@@ -1068,6 +1134,9 @@ ALL = {
     "C13_x64_flag_restored": C13_x64_flag_restored,
     "D17": D17_inherited_call_restored,
     "D26": D26_inherited_patch_not_left_behind,
+    "D29": D29_static_kwarg_value_in_function_key,
+    "D30": D30_passthrough_function_body,
+    "D31": D31_custom_name_collides_with_loop_body_value,
     "C13_rebinding_between_conversions": C13_rebinding_between_conversions,
     "D1": D1_max_nonscalar_side_operand,
     "D2": D2_reshape_max_nonscalar,
